@@ -8,10 +8,13 @@
 (* rationals <<num, den>>.  The walk over the witnesses B(j/8) checks the box really contains the  *)
 (* curve; Attained says each side is touched at t = 0, 1 or a critical point inside (0,1).         *)
 EXTENDS Integers, Sequences, FiniteSets, TLC, Json
-CONSTANTS Vals, W, MaxDen  \* control values; witnesses j/W; bound on the denominators of critical points
+CONSTANTS Vals, W, MaxDen, Degs  \* control values; witnesses j/W; bound on the denominators of critical points; degrees explored
 MinusThree == -3
 ValsA == -3..3
 ValsB == {-3, -1, 0, 2, 3}
+ValsC == -9..9
+DegsAll == 1..3
+Degs2 == {2}
 Abs(x) == IF x < 0 THEN -x ELSE x
 IsSquare(n) == n >= 0 /\ \E r \in 0..60 : r * r = n
 Sqrt(n) == CHOOSE r \in 0..60 : r * r = n
@@ -49,7 +52,7 @@ Min(P) == CHOOSE v \in CVals(P) : \A w \in CVals(P) : RLe(v, w)
 Max(P) == CHOOSE v \in CVals(P) : \A w \in CVals(P) : RLe(w, v)
 VARIABLES P, j
 vars == <<P, j>>
-Init == /\ \E n \in 1..3 : P \in [1..(n+1) -> Vals]
+Init == /\ \E n \in Degs : P \in [1..(n+1) -> Vals]
         /\ Known(P) /\ j = 0
         /\ \A t \in Crit(P) : t[2] <= MaxDen          \* keeps every product below 2^31
 Step == j < W /\ j' = j + 1 /\ UNCHANGED P
@@ -77,9 +80,18 @@ TVAtLeastChord == TVOK => RLe(RAbs(RSub(Norm(Val(P, <<j, W>>)), <<P[1], 1>>)), T
 RECURSIVE PolyLen(_)
 PolyLen(i) == IF i >= Len(P) THEN 0 ELSE Abs(P[i+1] - P[i]) + PolyLen(i+1)
 TVAtMostPolygon == TVOK => RLe(TV(0, W), <<PolyLen(1), 1>>)
-TVMonotone == [][TVOK => RLe(TV(0, j), TV(0, j'))]_vars
+
+(* whole-curve total variation of a quadratic in closed form: at its critical parameter the curve is at (P0 P2 - P1^2)/(P0 - 2 P1 + P2) *)
+QuadTV01 == IF Len(P) # 3 THEN <<0, 1>>
+            ELSE LET a == P[1] - 2 * P[2] + P[3]
+                     inside == a # 0 /\ In01(Norm(<<P[1] - P[2], a>>))
+                 IN IF ~inside THEN <<Abs(P[3] - P[1]), 1>>
+                    ELSE LET apex == Norm(<<P[1] * P[3] - P[2] * P[2], a>>)
+                         IN RAdd(RAbs(RSub(apex, <<P[1], 1>>)), RAbs(RSub(<<P[3], 1>>, apex)))
+QuadTVAgrees == (Len(P) = 3 /\ TVOK) => QuadTV01 = TV(0, W)
 AtStart == j = 0
+TVMonotone == [][TVOK => RLe(TV(0, j), TV(0, j'))]_vars
 Dump == j = 0 => PrintT(ToJson([P |-> P, min |-> Min(P), max |-> Max(P), ncrit |-> Cardinality({ t \in Crit(P) : In01(t) }),
-                                tvok |-> TVOK, tv |-> IF TVOK THEN [i \in 1..(W+1) |-> TV(0, i-1)] ELSE <<>>,
+                                tvok |-> TVOK, qtv |-> QuadTV01, tv |-> IF TVOK THEN [i \in 1..(W+1) |-> TV(0, i-1)] ELSE <<>>,
                                 tvmid |-> IF TVOK THEN TV(W \div 4, (3 * W) \div 4) ELSE <<0, 1>>]))
 =============================================================================
